@@ -8,7 +8,7 @@
 (***************************************************************************)
 EXTENDS Naturals, Sequences, FiniteSets, TLC
 
-CONSTANTS D, NP, Names, MaxSteps, MaxDamage, MaxStamp
+CONSTANTS D, NP, Names, MaxSteps, MaxDamage, MaxStamp, ScriptId
 Contents == {<<"v1">>, <<"v2">>, <<"s1">>, <<"v3", "s2">>}
 
 BS == 4
@@ -43,7 +43,15 @@ AllFiles(c) == UNION {{<<d, n>> : n \in DOMAIN c.cf[d]} : d \in D}
 WithFile(f, d, n, rec) == [f EXCEPT ![d] = [m \in DOMAIN f[d] \cup {n} |-> IF m = n THEN rec ELSE f[d][m]]]
 WithoutFile(f, d, n) == [f EXCEPT ![d] = [m \in DOMAIN f[d] \ {n} |-> f[d][m]]]
 
+(* ScriptId = "none": free exploration.  Otherwise only the named action sequence is followed (all argument
+   choices explored): used to show in seconds that the model exhibits the announced counterexamples *)
+Scripts == [F1 |-> <<"Write", "Write", "Sync", "Delete", "Write", "SyncMid", "Restore", "LoseFile", "Fix">>,
+            F1s |-> <<"Write", "Sync", "Write", "SyncMid", "LoseFile", "Fix">>,
+            F2 |-> <<"Write", "Sync", "Delete", "Write", "SyncKillAfterPresave", "LoseFile", "Fix">>,
+            none |-> <<>>]
+Script == Scripts[ScriptId]
 Step(name) == /\ steps < MaxSteps /\ steps' = steps + 1 /\ last' = name
+              /\ (ScriptId = "none" \/ (steps + 1 <= Len(Script) /\ Script[steps + 1] = name))
 
 (* ---- user edits ---- *)
 Write(d, n, b) ==
